@@ -18,12 +18,15 @@ def evaluator(p, res, meta):
         o = asmgen.Oracle(p).run()
     except asmgen.Unsupported:
         return None
-    if o.first_failing_commit() is not None:
-        return None          # defective programs are C06's subject
+    defective = o.first_failing_commit() is not None
     for (req, a, _) in res:
         k = req.split()[0]
-        if k in ("c", "fin", "take", "drain", "}alter", "alter{") and (a.startswith("err") or a == "panic"):
+        if k in ("c", "fin", "take", "drain", "}alter", "alter{") and (a.startswith("err") or a == "panic" or a == "dead"):
+            if defective:
+                return None          # defective programs that are rejected are C06's subject
             return ({"kind": "healthy-program-rejected", "op": k}, f"`{k}` returned `{a}` for a program in which every reference has a definition in range")
+    # every commit succeeded: the property speaks about the code produced, also when the program should not have been accepted
+    # (references without a designated definition have no expected value and are skipped by check_image)
     fb = asmcheck.final_bytes(res)
     if fb is None:
         return None
